@@ -179,7 +179,7 @@ class MyPyAstVisitor:
                         )
                 else:
                     upper_bound = generic_type.upper_bound
-                    if upper_bound.__str__() != "builtins.object":
+                    if getattr(getattr(upper_bound, "type", None), "fullname", "") != "builtins.object":
                         variance_values = self.mypy_type_to_abstract_type(upper_bound)
 
                 type_parameters.append(
@@ -1044,7 +1044,7 @@ class MyPyAstVisitor:
         elif isinstance(mypy_type, mp_types.TypeVarType):
             upper_bound = mypy_type.upper_bound
             type_ = None
-            if upper_bound.__str__() != "builtins.object":
+            if getattr(getattr(upper_bound, "type", None), "fullname", "") != "builtins.object":
                 type_ = self.mypy_type_to_abstract_type(upper_bound)
 
                 if mypy_type.name == "Self":
